@@ -347,6 +347,17 @@ def run_shard(spec, ctx):
                 if words:
                     data = data + b" " + b" ".join(r.choice(words) for _ in range(3))
                     case["data"] = runner.hx(data)
+                if r.random() < 0.5:
+                    # a listed keyword that is also, letter for letter, another decoder's result (same span: the order of
+                    # the registry decides which one is the parent)
+                    from vf.gens import netgen
+                    both = [netgen.exe_name(r), netgen.domain(r), netgen.ipv4(r), netgen.email(r)]
+                    name = "iocs%d" % i
+                    with open(os.path.join(kwdir, name), "wb") as f:
+                        f.write(b"\n".join(both) + b"\n")
+                    case["kwfiles"].append([name, (b"\n".join(both) + b"\n").hex()])
+                    data = data + b" " + b" ".join(r.sample(both, 2))
+                    case["data"] = runner.hx(data)
             if not ctx.begin(case):
                 continue
             judge_cli(data, ctx, case, r, workdir, kwdir)
